@@ -1,10 +1,15 @@
 package props
 
 import (
-	"strings"
+	"context"
 	"fmt"
+	"github.com/fullstorydev/grpchan/httpgrpc"
+	"google.golang.org/grpc/metadata"
+	"google.golang.org/protobuf/proto"
 	"io"
 	"math/rand"
+	"net/http"
+	"strings"
 	"sync"
 	"time"
 
@@ -232,11 +237,11 @@ func execScript(c *Carrier, sc *Script, prep func(*Run)) (*Run, bool, string) {
 	}
 	c.Svc.Forget(run)
 	return run, ok, dump
-	}
+}
 
-	// reachProblem: a script that reaches its handler over the standard transport must reach it on every carrier;
-	// a call that fails before any handler ran leaves the other oracles nothing to judge and must not pass for that.
-	func reachProblem(cs *carrierSet, c *Carrier, sc *Script, run *Run) string {
+// reachProblem: a script that reaches its handler over the standard transport must reach it on every carrier;
+// a call that fails before any handler ran leaves the other oracles nothing to judge and must not pass for that.
+func reachProblem(cs *carrierSet, c *Carrier, sc *Script, run *Run) string {
 	if run.hStarted.Load() > 0 {
 		return ""
 	}
@@ -249,11 +254,11 @@ func execScript(c *Carrier, sc *Script, prep func(*Run)) (*Run, bool, string) {
 		return ""
 	}
 	return fmt.Sprintf("the call failed (%v) without ever reaching the handler; over the standard transport the same script reaches it", out.Err)
-	}
+}
 
-	// hangVerdict judges a run that hit the watchdog: parked for good on a script the standard transport completes
-	// is a violation (nothing was delivered, no status ever arrived); anything else stays inconclusive.
-	func hangVerdict(e *core.Env, prop string, cs *carrierSet, c *Carrier, sc *Script, run *Run, dump string) {
+// hangVerdict judges a run that hit the watchdog: parked for good on a script the standard transport completes
+// is a violation (nothing was delivered, no status ever arrived); anything else stays inconclusive.
+func hangVerdict(e *core.Env, prop string, cs *carrierSet, c *Carrier, sc *Script, run *Run, dump string) {
 	if run.Stuck {
 		if _, ok, _ := execScript(cs.ref, sc, nil); ok {
 			w := witness(run)
@@ -263,7 +268,7 @@ func execScript(c *Carrier, sc *Script, prep func(*Run)) (*Run, bool, string) {
 		}
 	}
 	e.Inconclusive("%s %s %s: run did not finish within the watchdog", prop, c.Name, sc.Shape())
-	}
+}
 
 type carrierSet struct {
 	ref  *Carrier
@@ -320,8 +325,10 @@ func checkC01(e *core.Env) {
 		e.Count("runs."+c.Name, 1)
 		if probs := deliveryOracle(run); len(probs) > 0 {
 			e.Violate(fmt.Sprintf("delivery/%s/%s", c.Name, sc.Kind), probs[0], witness(run))
+		} else if p := spuriousReceiveError(run); p != "" {
+			e.Violate(fmt.Sprintf("delivery/%s/%s/receive-failed", c.Name, sc.Kind), p, witness(run))
 		}
-	}
+		}
 
 	n := e.N(500, 4000)
 	e.Cases("seq", n, func(i int, r *rand.Rand) {
@@ -332,6 +339,10 @@ func checkC01(e *core.Env) {
 			if rr.Intn(6) == 0 {
 				// a call that ends with an error status: what arrived before is still an intact prefix
 				sc.Ret = Ret{How: "status", Code: 10, Msg: "ends in failure"}
+			}
+			if sc.Kind.ClientStreams() && rr.Intn(5) == 0 {
+				// a handler that sends its headers first and reads its requests afterwards
+				sc.Handler = append([]Op{{Op: "sendhdr", MD: metadata.MD{"early": {"headers"}}}}, sc.Handler...)
 			}
 			e.Note("%s %s", c.Name, sc.Shape())
 			// calibration on the standard transport
@@ -380,6 +391,62 @@ func checkC01(e *core.Env) {
 		e.Count("early_returns_placed", 1)
 		if seen != nil && !sameMsg(seen, orig) {
 			e.Violate("delivery/inproc/unary/early-return-altered", fmt.Sprintf("the call had returned (cancelled) and the caller re-used its request; the handler then received a message that was never sent: %s (sent: %s)", msgDesc(seen), msgDesc(orig)), map[string]any{"sent": msgDesc(orig), "handler_received": msgDesc(seen)})
+		}
+	})
+
+	// a unary call over HTTP that returns on cancellation after the reply's headers and before its body: when the
+	// body arrives later, nothing is written into the reply object, which belongs to the caller again
+	e.Cases("unary-late-reply", e.N(30, 300), func(i int, r *rand.Rand) {
+		reply := genMsg(r, fmt.Sprintf("late-%d", i), false)
+		reply.Count = 4242
+		full, _ := proto.Marshal(reply)
+		gate := make(chan struct{})
+		closed := make(chan struct{})
+		body := &lateBody{data: full, gate: gate, closed: closed}
+		arrived := make(chan struct{})
+		ch := &httpgrpc.Channel{BaseURL: mustURL("http://late.test/"), Transport: rtFunc(func(rq *http.Request) (*http.Response, error) {
+			h := http.Header{}
+			h.Set("Content-Type", httpgrpc.UnaryRpcContentType_V1)
+			close(arrived)
+			return &http.Response{StatusCode: 200, Header: h, Body: body, ContentLength: int64(len(full)), Request: rq, ProtoMajor: 1, ProtoMinor: 1}, nil
+		})}
+		ctx, cancel := context.WithCancel(context.Background())
+		defer cancel()
+		resp := new(tpb.Message)
+		res := make(chan error, 1)
+		go func() { res <- ch.Invoke(ctx, Unary.Method(), &tpb.Message{}, resp) }()
+		select {
+		case <-arrived:
+		case <-time.After(watchdog):
+			e.Inconclusive("C01 unary-late-reply: round trip not reached")
+			close(gate)
+			return
+		}
+		time.Sleep(time.Duration(r.Intn(300)) * time.Microsecond)
+		cancel()
+		var ierr error
+		select {
+		case ierr = <-res:
+		case <-time.After(watchdog):
+			e.Inconclusive("C01 unary-late-reply: Invoke did not return after cancel")
+			close(gate)
+			return
+		}
+		// the caller re-uses its reply object (say, for its next call)
+		resp.Reset()
+		resp.Payload = []byte("reply of the caller's next call")
+		close(gate)
+		select {
+		case <-closed:
+		case <-time.After(2 * time.Second):
+		}
+		time.Sleep(2 * time.Millisecond)
+		e.Eval("unary-late-reply", true)
+		if ierr == nil {
+			return // the call completed before the cancellation took effect
+		}
+		if string(resp.Payload) != "reply of the caller's next call" || resp.Count != 0 {
+			e.Violate("delivery/http/unary/late-reply-written", fmt.Sprintf("Invoke had returned %v; when the reply body arrived afterwards it was decoded into the caller's reply object, which now reads {%s}", ierr, msgDesc(resp)), nil)
 		}
 	})
 
@@ -472,4 +539,46 @@ func hash64str(s string) uint64 {
 		h *= 1099511628211
 	}
 	return h
+}
+
+// lateBody is a reply body that arrives only when its gate opens.
+type lateBody struct {
+	data   []byte
+	gate   chan struct{}
+	closed chan struct{}
+	once   sync.Once
+}
+
+func (b *lateBody) Read(p []byte) (int, error) {
+	<-b.gate
+	if len(b.data) == 0 {
+		return 0, io.EOF
+	}
+	n := copy(p, b.data)
+	b.data = b.data[n:]
+	return n, nil
+}
+func (b *lateBody) Close() error {
+	b.once.Do(func() { close(b.closed) })
+	return nil
+}
+
+// spuriousReceiveError: in a script where nobody cancels and the handler returns nil, the handler's receives end
+// with io.EOF or not at all; a transport error in their place means messages the client sent (its sends succeeded)
+// were lost on the way. (The standard transport carries these scripts without such an error: calibration.)
+func spuriousReceiveError(run *Run) string {
+	if run.S.Ret.How != "" && run.S.Ret.How != "ok" {
+		return ""
+	}
+	for _, ev := range run.Events() {
+		if ev.Op == "cancel" {
+			return ""
+		}
+	}
+	for _, ev := range run.Rets("h", "recv") {
+		if ev.Err != nil && ev.Err != io.EOF {
+			return fmt.Sprintf("nothing was cancelled and the client's sends succeeded, yet a receive of the handler failed with: %v", ev.Err)
+		}
+	}
+	return ""
 }
